@@ -482,6 +482,10 @@ def check(name, goal, kind="ensures", note="", extra=(), fallback_extra=None, we
     weak: the goal mentions uninterpreted stand-ins for real functions (sin, ellipk, ...): a counter-model may interpret them in a way
     the real functions do not allow, so a satisfiable negation is only a candidate (failed-weak) until the native replay confirms it."""
     c = CTX
+    rp0 = getattr(c, "record_prefixes", None)
+    if rp0 is not None and name[:1] == "C" and not name.startswith(rp0) and not getattr(c, "prove_unrecorded", False):
+        # a contract-level obligation of another property in a shared proof unit: it is decided (and recorded) by that property's own check
+        return True
     if isinstance(goal, SB):
         goal = goal.e
     elif isinstance(goal, bool):
